@@ -2,6 +2,8 @@
 (* the configurations the rewrite system starts from: one native file each (schema: name (required), count, flag, tags, meta,
    repeated labelled block server {host (required), port, opt {v}}, single block limits {max (required)}) *)
 EXTENDS Rewrite
+(* strings in states stay ASCII (TLC mangles other characters when states go through its disk queue): the harness
+   writes {eacute} as the two-byte character and reads it back the same way *)
 Sv(label, host, more) == Blk("server", <<label>>, <<Attr("host", S(host))>> \o more)
 Port(n) == <<Attr("port", N(n))>>
 Opt(v) == <<Blk("opt", <<>>, <<Attr("v", S(v))>>)>>
@@ -9,7 +11,7 @@ Lim(m) == Blk("limits", <<>>, <<Attr("max", N(m))>>)
 Bases == {
   [id |-> "c1", valid |-> TRUE, items |-> <<Attr("name", S("web")), Attr("count", N(5)), Sv("web", "h1", <<>>), Sv("db", "h2", <<>>), Lim(3)>>],
   [id |-> "c2", valid |-> TRUE, items |-> <<Sv("web", "h1", Port(80)), Attr("flag", B(TRUE)), Attr("name", Tm("if", "on")), Sv("web", "h2", Port(81)), Attr("tags", Ls(<<"a", "b c">>)), Sv("db", "h3", Port(-3))>>],
-  [id |-> "c3", valid |-> TRUE, items |-> <<Attr("meta", Mp(<<<<"k", "v">>, <<"k2", "">> >>)), Sv("web", "h1", Opt("x")), Sv("db", "h2", Opt("y")), Attr("name", S("q\"\\ é"))>>],
+  [id |-> "c3", valid |-> TRUE, items |-> <<Attr("meta", Mp(<<<<"k", "v">>, <<"k2", "">> >>)), Sv("web", "h1", Opt("x")), Sv("db", "h2", Opt("y")), Attr("name", S("q\"\\ {eacute}"))>>],
   [id |-> "c4", valid |-> TRUE, items |-> <<Attr("tags", Ls(<<>>)), Lim(0), Attr("flag", B(FALSE)), Attr("name", S("100%{x ${y} $${z}"))>>],
   [id |-> "c5", valid |-> TRUE, items |-> <<Sv("a", "h1", <<>>), Sv("b", "h2", Port(1)), Attr("count", N(0)), Sv("c", "h3", <<>>), Attr("name", Tm("interp", "v2"))>>],
   [id |-> "c7", valid |-> TRUE, items |-> <<Attr("name", Tm("pct", "50%{x} ")), Sv("t", "x", Opt("y")), Attr("tags", Ls(<<"%{", "%%{", "$">>))>>],
